@@ -29,9 +29,9 @@ const wait = 30 * time.Second
 // sinkRemote gives the engine a host:port address; whatever is sent to another node is dropped.
 type sinkRemote struct{ addr string }
 
-func (r sinkRemote) Address() string               { return r.addr }
-func (r sinkRemote) Start(*actor.Engine) error      { return nil }
-func (r sinkRemote) Stop() *sync.WaitGroup          { return &sync.WaitGroup{} }
+func (r sinkRemote) Address() string                  { return r.addr }
+func (r sinkRemote) Start(*actor.Engine) error        { return nil }
+func (r sinkRemote) Stop() *sync.WaitGroup            { return &sync.WaitGroup{} }
 func (r sinkRemote) Send(*actor.PID, any, *actor.PID) {}
 
 type stubProvider struct{}
@@ -124,8 +124,8 @@ func eq(a, b []string) bool { return strings.Join(a, ",") == strings.Join(b, ","
 // ---- C18 --------------------------------------------------------------------------
 
 type ViewCase struct {
-	Snaps [][]int `json:"snaps"` // member indices 1..6; self (0) is added by the harness at a generated position
-	SelfAt []int  `json:"self_at"`
+	Snaps  [][]int `json:"snaps"` // member indices 1..6; self (0) is added by the harness at a generated position
+	SelfAt []int   `json:"self_at"`
 }
 
 func runView(c ViewCase) (feat map[string]int, err error) {
@@ -366,6 +366,12 @@ func runProv(c ProvCase) (feat map[string]int, err error) {
 			next(c)
 		}
 	}
+	cluster.VerifEventChildHandled = func(msg any) {
+		h.mu.Lock()
+		h.handled["child:"+fmt.Sprintf("%T", msg)]++
+		h.cond.Broadcast()
+		h.mu.Unlock()
+	}
 	prov := cluster.VerifStartProvider(cl, agent, actor.WithMiddleware(mw), actor.WithRestartDelay(0))
 	model := map[int]bool{0: true}
 	hs, ml, leaves := 0, 0, 0
@@ -459,11 +465,19 @@ func runProv(c ProvCase) (feat map[string]int, err error) {
 			leaves++
 			// the public route: the event stream feeds the provider's event child
 			e.BroadcastEvent(actor.RemoteUnreachableEvent{ListenAddr: addr})
-			if err := h.waitHandled("cluster.memberLeave", leaves); err != nil {
+			// barrier: the provider's event child has handled the report; whatever it sent to the provider
+			// is in the provider's inbox now, ahead of the read-back handshake below
+			if err := h.waitHandled("child:actor.RemoteUnreachableEvent", leaves); err != nil {
 				return nil, err
 			}
 		default:
 			return nil, nil
+		}
+		// read the provider's list back: a handshake from this node itself changes nothing (and it is
+		// queued behind everything the op put into the provider's inbox)
+		list, err := handshake(member(0))
+		if err != nil {
+			return nil, err
 		}
 		after, got := agentSaw()
 		if told {
@@ -473,11 +487,6 @@ func runProv(c ProvCase) (feat map[string]int, err error) {
 			if w := setIDs(model); !eq(got, w) {
 				return nil, fmt.Errorf("op %d (%s): the agent was told %v, want %v", oi, op.K, got, w)
 			}
-		}
-		// read the provider's list back: a handshake from this node itself changes nothing
-		list, err := handshake(member(0))
-		if err != nil {
-			return nil, err
 		}
 		if w := setIDs(model); !eq(list, w) {
 			return nil, fmt.Errorf("op %d (%s %d %v %q): the provider's member list is %v, want %v", oi, op.K, op.M, op.Ms, op.A, list, w)
